@@ -61,6 +61,7 @@ class Machine:
         self.names = [None]       # uid -> [creator pid, op index, ordinal] for user-visible events
         self.res = resources
         self.resources = [None]   # resource id -> object
+        self.rscale = {}          # resource id -> factor applied to container amounts
         self.rkinds = [None]
         self.pid_of = {}          # id(Process) -> pid
         self.fl = None            # float mode: {"delays": [...], "untils": [...]}; ops carry 1-based indices
@@ -202,7 +203,7 @@ class Machine:
                 items = sorted(items)
             out += [len(users)] + [self.uid_of.get(id(u), -1) for u in users]
             out += [len(r.put_queue)] + [self.uid_of.get(id(u), -1) for u in r.put_queue]
-            out += [netlib.ex(getattr(r, "level", 0)), len(items)] + [int(x) for x in items] + [len(r.get_queue)]
+            out += [netlib.ex(getattr(r, "level", 0) / self.rscale.get(i, 1)), len(items)] + [int(x) for x in items] + [len(r.get_queue)]
         return out
 
     # ------------------------------------------------------------ ops shared by processes and the top level
@@ -294,7 +295,12 @@ class Machine:
             elif kind == "preempt":
                 r = PreemptiveResource(env, cap)
             elif kind == "cont":
-                r = Container(env, cap, o["b"])
+                # s = [kind, e]: every amount, the capacity and the initial level are multiplied by 2**e on the way in and
+                # divided on the way out -- exact in binary floating point, so the history is the integer one, but the
+                # implementation computes with very small (e = -40) or large float amounts ("continuous matter")
+                sc = 2.0 ** o["s"][1] if len(o["s"]) > 1 and o["s"][1] else 1
+                self.rscale[len(self.resources)] = sc
+                r = Container(env, cap * sc, o["b"] * sc) if sc != 1 else Container(env, cap, o["b"])
             elif kind == "store":
                 r = Store(env, cap)
             elif kind == "pstore":
@@ -333,7 +339,7 @@ class Machine:
         if k == "put":
             r, kind = self.resources[o["a"]], self.rkinds[o["a"]]
             try:
-                self.reg(r.put(Item(o["b"]) if kind == "fstore" else o["b"]), "put")
+                self.reg(r.put(Item(o["b"]) if kind == "fstore" else o["b"] * self.rscale.get(o["a"], 1)), "put")
             except ValueError:
                 self.L("E", P, False, V("ValueError"))
             return None
@@ -341,7 +347,7 @@ class Machine:
             r, kind = self.resources[o["a"]], self.rkinds[o["a"]]
             try:
                 if kind == "cont":
-                    g = r.get(o["b"])
+                    g = r.get(o["b"] * self.rscale.get(o["a"], 1))
                 elif kind == "fstore":
                     g = r.get(lambda x, f=o["b"]: f == 0 or int(x) == f)
                 else:
@@ -701,7 +707,8 @@ def run_generated(g):
     ch = Chooser(m, g)
     if g.get("resources"):
         # resource histories: the top level creates the resources and all processes, then runs step by step
-        plan = [{"k": "mkres", "a": c, "b": i, "c": 1 if g.get("halfcap") else 0, "s": [kc]} for kc, c, i in g["resources"]]
+        plan = [{"k": "mkres", "a": c, "b": i, "c": 1 if g.get("halfcap") else 0,
+                 "s": [kc, g["cscale"]] if (kc == 4 and g.get("cscale")) else [kc]} for kc, c, i in g["resources"]]
         plan += [{"k": "spawn", "a": 0, "b": 0, "c": 0, "s": []} for _ in range(g["nproc"])]
         plan += [{"k": "steps", "a": 0, "b": 0, "c": 0, "s": []}]
     else:
